@@ -1466,6 +1466,11 @@ func (iv *Inv) validatedByDenomCall(fn *ssa.Function, at ssa.Instruction, d ssa.
 	if ok, how := iv.validatedBySiblingLiteral(fn, cont); ok {
 		return true, how
 	}
+	// a body shared by several operations whose behaviour a constant mode flag selects: in every calling context in
+	// which this use can execute, a validation of the same container ran - and succeeded - before
+	if ok, how := iv.validatedInEveryContext(fn, at, cont); ok {
+		return true, how
+	}
 	// the value (or the slice it is an element of) was handed in as a parameter: established at every call site on the
 	// inventoried trees
 	if prm, ok := cont.(*ssa.Parameter); ok && prm.Parent() == fn && iv.liftDepth < 2 {
@@ -1725,6 +1730,188 @@ func (iv *Inv) validatedBySiblingLiteral(fn *ssa.Function, cont ssa.Value) (bool
 		}
 	}
 	return false, ""
+}
+
+// sameTranslated: two values (possibly detached copies made by translateValue) denote the same expression over the
+// same SSA leaves.
+func sameTranslated(a, b ssa.Value, depth int) bool {
+	if a == b {
+		return true
+	}
+	if depth > 8 || a == nil || b == nil {
+		return false
+	}
+	switch x := a.(type) {
+	case *ssa.UnOp:
+		y, ok := b.(*ssa.UnOp)
+		return ok && x.Op == y.Op && sameTranslated(x.X, y.X, depth+1)
+	case *ssa.Field:
+		y, ok := b.(*ssa.Field)
+		return ok && x.Field == y.Field && sameTranslated(x.X, y.X, depth+1)
+	case *ssa.FieldAddr:
+		y, ok := b.(*ssa.FieldAddr)
+		return ok && x.Field == y.Field && sameTranslated(x.X, y.X, depth+1)
+	case *ssa.Convert:
+		y, ok := b.(*ssa.Convert)
+		return ok && sameTranslated(x.X, y.X, depth+1)
+	case *ssa.ChangeType:
+		y, ok := b.(*ssa.ChangeType)
+		return ok && sameTranslated(x.X, y.X, depth+1)
+	}
+	// a field of a spilled struct parameter read two ways: load of the slot's field address vs Field of a load
+	return false
+}
+
+// validatedInEveryContext: see the call site. Contexts are the static call chains (three levels) from the roots of
+// the inventoried trees down to fn; the branches of the functions on a chain are decided by the constants the root
+// fixes (ConstEval lifted along the chain).
+func (iv *Inv) validatedInEveryContext(fn *ssa.Function, at ssa.Instruction, cont ssa.Value) (bool, string) {
+	cg := iv.w.CG()
+	var chains [][]*Site
+	var climb func(f *ssa.Function, below []*Site, depth int) bool
+	climb = func(f *ssa.Function, below []*Site, depth int) bool {
+		callers := iv.treeCallers(f)
+		if len(callers) == 0 {
+			chains = append(chains, below)
+			return true
+		}
+		if depth >= 3 {
+			return false
+		}
+		for _, cs := range callers {
+			if cs.Static != f || cs.Invoke {
+				return false
+			}
+			if !climb(cs.Caller, append([]*Site{cs}, below...), depth+1) {
+				return false
+			}
+		}
+		return true
+	}
+	if !climb(fn, nil, 0) || len(chains) == 0 {
+		return false, ""
+	}
+	constant := false
+	var hows []string
+	for _, ch := range chains {
+		if len(ch) == 0 {
+			return false, ""
+		}
+		// liveness of the use in this context
+		live := true
+		cur := CondFn(ConstEval)
+		f := ch[0].Caller
+		for _, c := range ch {
+			if !ReachUnder(f, cur).LiveInstr(c.Instr) {
+				live = false
+				break
+			}
+			cur = liftEval(cur, c.Static, c.Instr)
+			f = c.Static
+		}
+		if live && !ReachUnder(fn, cur).LiveInstr(at) {
+			live = false
+		}
+		if !live {
+			constant = true // a constant of the root decided that the use is dead here
+			continue
+		}
+		// validation at some level of the chain: level k is function ch[k].Caller with next instruction ch[k].Instr;
+		// the last level is fn itself with `at`
+		found := ""
+		for k := len(ch); k >= 0 && found == ""; k-- {
+			var g *ssa.Function
+			var next ssa.Instruction
+			if k == len(ch) {
+				g, next = fn, at
+			} else {
+				g, next = ch[k].Caller, ch[k].Instr
+			}
+			evalG := EvalAlong(ConstEval, ch[:k])
+			// the container in g's terms
+			contG := (EffSite{Chain: ch[k:]}).ToRoot(cont)
+			for _, vs := range cg.Sites[g] {
+				vc := siteCall(vs)
+				if vc == nil || vs.Static == nil || vs.Invoke || vs.Static.Blocks == nil || !iv.w.isProdFunc(vs.Static) || ssa.Instruction(vc) == next {
+					continue
+				}
+				if !OnSuccessEdge(g, next, vc) {
+					continue
+				}
+				if iv.validatesUnder(vs.Static, vc, contG, liftEval(evalG, vs.Static, vc), 0) {
+					found = "validated by " + funcName(vs.Static) + " before the call in " + funcName(g)
+				}
+			}
+		}
+		if found == "" {
+			return false, ""
+		}
+		hows = append(hows, found+" (context "+funcName(ch[0].Caller)+")")
+	}
+	if len(hows) == 0 || !constant && len(chains) == 1 {
+		// nothing was decided by a constant: this is the plain case handled elsewhere
+		if len(hows) == 0 {
+			return false, ""
+		}
+	}
+	return true, "g2: in every calling context in which the use is live: " + strings.Join(dedupe(hows), "; ")
+}
+
+// validatesUnder: under the assumption (in v's terms) every return of v that may carry a nil error lies behind the
+// success of a call that validates, as denominations, the container `want` (given in the terms of v's caller).
+func (iv *Inv) validatesUnder(v *ssa.Function, call *ssa.Call, want ssa.Value, eval CondFn, depth int) bool {
+	if depth > 2 {
+		return false
+	}
+	bind := bindParams(v, call)
+	live := ReachUnder(v, eval)
+	var okCalls []ssa.Value
+	for _, s2 := range iv.w.CG().Sites[v] {
+		c2 := siteCall(s2)
+		if c2 == nil || s2.Static == nil || s2.Invoke || s2.Static.Blocks == nil {
+			continue
+		}
+		for j, a2 := range c2.Common().Args {
+			if j >= len(s2.Static.Params) || !sameTranslated(translateValue(a2, bind, 0), want, 0) {
+				continue
+			}
+			if iv.calleeValidatesDenomParam(s2.Static, s2.Static.Params[j]) || iv.validatesUnder(s2.Static, c2, translateValue(a2, bind, 0), liftEval(eval, s2.Static, c2), depth+1) {
+				okCalls = append(okCalls, c2)
+			}
+		}
+	}
+	if len(okCalls) == 0 {
+		return false
+	}
+	n := 0
+	for _, ret := range Returns(v) {
+		if !live.Blocks[ret.Block()] {
+			continue
+		}
+		rv := retVals(ret)
+		if len(rv) == 0 {
+			return false
+		}
+		last := rv[len(rv)-1]
+		if nonNilAt(last, ret.Block(), 0) {
+			continue
+		}
+		n++
+		good := false
+		for _, oc := range okCalls {
+			// the return IS the validating call's result (`return validate(...)`), or lies on its success edge
+			if ex, isEx := last.(*ssa.Extract); isEx && ex.Tuple == oc {
+				good = true
+			}
+			if last == oc || OnSuccessEdge(v, ret, oc) {
+				good = true
+			}
+		}
+		if !good {
+			return false
+		}
+	}
+	return n > 0
 }
 
 // lastPathField resolves the last ".Type.Field" element of a leaf path to the named module/sdk type.
